@@ -1,6 +1,7 @@
 package main
 
 import (
+	"go/types"
 	"bytes"
 	"context"
 	"fmt"
@@ -102,6 +103,17 @@ func (e *Engine) verifyFnOnce(fn *ssa.Function, opts *VCOpts, post func(fr *Fram
 		v := fr.namedVal("free_"+sanitize(fv.Name()), fv.Type())
 		fr.typeInv(v, fv.Type(), "true", st)
 		free = append(free, v)
+	}
+	if opts.ProtectParams {
+		// tree shape (acyclicity): the node handed to a releasing function is not reachable from its own children,
+		// so calls made on the children leave its fields alone (listed as an assumption by the driver)
+		for i, p := range fn.Params {
+			if pt, ok := underlying(p.Type()).(*ptrT); ok {
+				if _, ok := underlying(pt.Elem()).(*types.Struct); ok {
+					fr.protected = append(fr.protected, protectedObj{addr: args[i].C[0], typ: pt.Elem()})
+				}
+			}
+		}
 	}
 	// receiver non-nil (auto precondition, checked at modular call sites by the `nil` obligations of callers)
 	if fn.Signature.Recv() != nil && len(args) > 0 {
